@@ -442,6 +442,14 @@ class Rewriter:
                     writes.setdefault("?mem", []).append(y)      # a store into memory: may alias what an initialiser reads
             if y["k"] == "UnaryOperator" and y.get("op") == "&" and strip_casts(kids(y)[0])["k"] == "DeclRefExpr":
                 addr.add(strip_casts(kids(y)[0])["ref"]["id"])
+            if "callee" in y and y["k"] == "CallExpr" and y["callee"]["name"] == "move" and len(kids(y)) >= 1 and \
+                    (y["callee"].get("qname") or "std::move").startswith("std::"):
+                # std::move(x): whoever consumes the result may empty x - a write to x at this point
+                am = kids(y)[-1]
+                root = lvalue_root(am) if am is not None else None
+                writes.setdefault(root if root is not None else "?", []).append(y)
+                if am is not None and strip_casts(am) is not None and strip_casts(am)["k"] != "DeclRefExpr":
+                    writes.setdefault("?mem", []).append(y)
             if "callee" in y and y["k"] in ("CallExpr", "CXXMemberCallExpr"):
                 # a non-const reference argument may be written by the callee
                 for a in kids(y):
@@ -468,9 +476,15 @@ class Rewriter:
                 for c_ in y.get("captures", []):
                     if c_.get("byref") and c_.get("id") is not None:
                         by_ref_captured.add(c_["id"])
+        moved = set()            # std::move(local): a const local / const reference copies, its initialiser might really move
+        for y in walk(body):
+            if "callee" in y and y["k"] == "CallExpr" and y["callee"]["name"] in ("move", "forward") and kids(y):
+                am = strip_casts(kids(y)[-1])
+                if am is not None and am["k"] == "DeclRefExpr":
+                    moved.add(am["ref"]["id"])
         todo = {}
         for d, v in decls.items():
-            if d in by_ref_captured:
+            if d in by_ref_captured or d in moved:
                 continue
             if any(y["k"] == "DeclRefExpr" and y["ref"]["id"] in by_ref_captured for y in walk(kids(v)[0])):
                 continue
